@@ -507,6 +507,94 @@ Proof.
   intros i Hi. apply H4; lia.
 Qed.
 
+Definition ColOK (k : nat) (T : vec) : Prop :=
+  exists z : nat -> S,
+    (forall i, i < n -> z i = ((if Nat.eqb (nth i p 0) k then s1 else s0) - sumn (fun j => W i j * z j) i)%S) /\
+    (forall i, i < n -> mg T i k =
+       ((z i - sumn (fun j => if Nat.leb (Datatypes.S i) j then W i j * mg T j k else s0) n) * W i i)%S).
+
+Lemma ColOK_frame k (T T' : vec) : (forall i, mg T' i k = mg T i k) -> ColOK k T -> ColOK k T'.
+Proof.
+  intros E (z & Hz & HT). exists z. split; [assumption|]. intros i Hi. rewrite E, (HT i Hi).
+  f_equal. f_equal. apply sumn_ext. intros j Hj. rewrite E. reflexivity.
+Qed.
+
+Lemma solve_col_spec k (t : vec) : k < n -> length t = n * n ->
+  length (solve_col n A p k t) = n * n /\
+  (forall i j, j < n -> j <> k -> mg (solve_col n A p k t) i j = mg t i j) /\
+  ColOK k (solve_col n A p k t).
+Proof.
+  intros Hk HL. rewrite solve_col_unfold.
+  destruct (low_phase k t Hk HL) as (HL1 & Hf1 & Hz).
+  set (t1 := for_loop 0 n (low_body n A p k) t) in *.
+  destruct (up_phase k t1 Hk HL1) as (HL2 & Hf2 & HT).
+  split; [assumption|]. split.
+  - intros i j Hj Hne. rewrite Hf2 by assumption. apply Hf1; assumption.
+  - exists (fun i => mg t1 i k). split; assumption.
+Qed.
+
+Lemma solve_all_spec (t : vec) : length t = n * n ->
+  length (for_loop 0 n (fun k t => solve_col n A p k t) t) = n * n /\
+  forall k, k < n -> ColOK k (for_loop 0 n (fun k t => solve_col n A p k t) t).
+Proof.
+  intro HL.
+  pose (P := fun k (T : vec) => length T = n * n /\ forall k', k' < k -> ColOK k' T).
+  assert (H : P (0 + n) (for_loop 0 n (fun k t => solve_col n A p k t) t)).
+  { apply (for_loop_inv P).
+    - split; [assumption|]. intros; lia.
+    - intros k T Hk (HLT & Hcols). destruct (solve_col_spec k T ltac:(lia) HLT) as (HL' & Hfr & Hc).
+      split; [assumption|]. intros k' Hk'. destruct (Nat.eq_dec k' k) as [->|Hne]; [assumption|].
+      apply (ColOK_frame k' T); [|apply Hcols; lia]. intro i. apply Hfr; lia. }
+  exact H.
+Qed.
+
+(* (L U) X = P e_k, column by column *)
+Lemma column_solves (B : nat -> nat -> S) k (T : vec) : k < n ->
+  (forall t, t < n -> W t t <> s0) -> FI n B W -> ColOK k T ->
+  forall i, i < n -> sumn (fun j => B i j * mg T j k)%S n = if Nat.eqb (nth i p 0) k then s1 else s0.
+Proof.
+  intros Hk Hdiag HFI (z & Hz & HT) i Hi.
+  assert (HU : forall t, t < n -> sumn (fun j => (Uc n W t j * mg T j k)%S) n = z t).
+  { intros t Ht.
+    transitivity (sumn (fun j => if Nat.eqb t j then (sinv (W t t) * mg T t k)%S else s0) n
+                  + sumn (fun j => if Nat.leb (Datatypes.S t) j then (W t j * mg T j k)%S else s0) n)%S.
+    - rewrite <- (sumn_add SrtI). apply sumn_ext. intros j Hj. unfold Uc.
+      destruct (Nat.ltb_spec t n); [|lia].
+      destruct (Nat.ltb_spec t j), (Nat.eqb_spec t j), (Nat.leb_spec (Datatypes.S t) j); subst; try lia; ring.
+    - rewrite (sumn_delta SrtI). destruct (Nat.ltb_spec t n); [|lia].
+      rewrite (HT t Ht) at 1.
+      set (St := sumn (fun j => if Nat.leb (Datatypes.S t) j then (W t j * mg T j k)%S else s0) n).
+      assert (Hd : (sinv (W t t) * W t t = s1)%S) by (apply (Finv_l Sft); apply Hdiag; assumption).
+      transitivity ((sinv (W t t) * W t t) * (z t - St) + St)%S; [ring|]. rewrite Hd. ring. }
+  transitivity (sumn (fun j => (sumn (fun t => Lc n W i t * Uc n W t j) n * mg T j k + Uc n W i j * mg T j k)%S) n).
+  { apply sumn_ext. intros j Hj. rewrite (HFI i j Hi Hj). unfold Rc. destruct (Nat.ltb_spec i n); [|lia]. ring. }
+  rewrite (sumn_add SrtI), (HU i Hi).
+  transitivity (sumn (fun t => (Lc n W i t * z t)%S) n + z i)%S.
+  { f_equal.
+    transitivity (sumn (fun j => sumn (fun t => (Lc n W i t * (Uc n W t j * mg T j k))%S) n) n).
+    - apply sumn_ext. intros j Hj. rewrite <- (sumn_scal_r SrtI). apply sumn_ext. intros t Ht. ring.
+    - rewrite (sumn_swap SrtI). apply sumn_ext. intros t Ht. rewrite (sumn_scal SrtI), (HU t Ht). reflexivity. }
+  transitivity (sumn (fun t => (W i t * z t)%S) i + z i)%S.
+  { f_equal. rewrite <- (sumn_trunc Sft (fun t => (W i t * z t)%S) i n) by lia.
+    apply sumn_ext. intros t Ht. unfold Lc. destruct (Nat.ltb_spec t n); [|lia].
+    rewrite Bool.andb_true_r. destruct (Nat.ltb t i); ring. }
+  rewrite (Hz i Hi). ring.
+Qed.
+
 End Solve.
+
+(* ---------- the theorem ---------- *)
+Theorem inverse_exact (t Bm : vec) : length t = n * n -> inverse n A0 t = Some Bm ->
+  forall r k, r < n -> k < n -> mat_mul_get n A0 Bm r k = if Nat.eqb r k then s1 else s0.
+Proof.
+  intros Ht H r k Hr Hk. unfold inverse in H.
+  destruct (lu_factor n A0) as [[A p]|] eqn:EF; [|discriminate]. injection H as <-.
+  destruct (lu_factor_spec A p EF) as (HP & HL & Hdiag & HFI). cbn [fst snd] in *.
+  destruct (solve_all_spec A p HL t Ht) as [_ Hcols].
+  destruct (PermOK_surj p r HP Hr) as (i & Hi & Epi).
+  pose proof (column_solves A p (view A0 p) k _ Hk Hdiag HFI (Hcols k Hk) i Hi) as Hsol.
+  rewrite Epi in Hsol. rewrite <- Hsol. unfold mat_mul_get. apply sumn_ext. intros j Hj.
+  unfold mat_get, view, mg. rewrite Epi. reflexivity.
+Qed.
 
 End InvExact.
